@@ -45,6 +45,7 @@ type vSessRun struct {
 	settle  time.Duration // hook-less mode: how long the connection must have been quiet
 	quiet   time.Duration // how long the peer is watched after Close returned
 	settled int
+	pending []chan struct{} // calls in progress (Set / Close that may be blocked on s.mu)
 }
 
 func vSessEnvInt(name string, def int) int {
@@ -57,6 +58,10 @@ func vSessEnvInt(name string, def int) int {
 }
 
 func vSessStart(id, mode string, ibgp bool, hold uint16, gated bool, seed int64, wrongFirst int) *vSessRun {
+	return vSessStartHold(id, mode, ibgp, hold, gated, seed, wrongFirst, false)
+}
+
+func vSessStartHold(id, mode string, ibgp bool, hold uint16, gated bool, seed int64, wrongFirst int, holdFirst bool) *vSessRun {
 	r := &vSessRun{id: id, hooks: vSessHooksPresent, lastReq: vSessEmptyTable(), status: "ok",
 		settle: time.Duration(vSessEnvInt("VERIF_SETTLE_MS", 250)) * time.Millisecond,
 		quiet:  time.Duration(vSessEnvInt("VERIF_QUIET_MS", 120)) * time.Millisecond}
@@ -68,6 +73,9 @@ func vSessStart(id, mode string, ibgp bool, hold uint16, gated bool, seed int64,
 	}
 	r.p = vSessNewPeer(r.l, r.u, peerASN, hold)
 	r.p.setWrong(wrongFirst)
+	if holdFirst {
+		r.p.armHold()
+	}
 	r.c = vSessNewCtl(r.l, r.u, gated && r.hooks)
 	r.c.callerG[vSessGoid()] = true
 	r.l.add("meta", map[string]interface{}{"mode": mode, "ibgp": ibgp, "hooks": r.hooks, "seed": int(seed), "hold": int(hold)})
@@ -85,6 +93,8 @@ func vSessStart(id, mode string, ibgp bool, hold uint16, gated bool, seed int64,
 }
 
 func (r *vSessRun) finish() {
+	r.p.release()
+	r.waitCalls(2 * time.Second)
 	if !r.closed {
 		r.doClose()
 	}
@@ -94,32 +104,47 @@ func (r *vSessRun) finish() {
 	vSessCtls.Delete(uint16(r.p.port))
 }
 
-// callWithLimit runs f on a helper goroutine (registered as a caller for the hook); if f does
-// not return in time the gates are opened for good (the schedule is abandoned, not the run).
-func (r *vSessRun) callWithLimit(f func()) {
+// startCall runs f on a helper goroutine (registered as a caller for the hook) and logs ret when f
+// has returned.  The call may block on s.mu (the sender holds it during sends and across the
+// whole handshake): that is not judged; what is judged is what happens after "<x>.ret".
+func (r *vSessRun) startCall(ret string, f func()) {
 	done := make(chan struct{})
+	r.pending = append(r.pending, done)
 	go func() {
 		g := vSessGoid()
 		r.l.mu.Lock()
 		r.c.callerG[g] = true
 		r.l.mu.Unlock()
 		f()
+		r.l.add(ret, nil)
 		close(done)
 	}()
-	select {
-	case <-done:
-		return
-	case <-time.After(2 * time.Second):
-	}
-	r.c.ungate()
-	select {
-	case <-done:
-	case <-time.After(20 * time.Second):
-		r.status = "timeout:call"
-	}
 }
 
-func (r *vSessRun) doSet(t map[string]string) {
+// waitCalls waits for the calls in progress; if they do not return in time the peer's held
+// handshake is released and the gates are opened for good (the schedule is abandoned, not the run).
+func (r *vSessRun) waitCalls(first time.Duration) bool {
+	ok := true
+	for _, done := range r.pending {
+		select {
+		case <-done:
+			continue
+		case <-time.After(first):
+		}
+		ok = false
+		r.p.release()
+		r.c.ungate()
+		select {
+		case <-done:
+		case <-time.After(20 * time.Second):
+			r.status = "timeout:call"
+		}
+	}
+	r.pending = nil
+	return ok
+}
+
+func (r *vSessRun) startSet(t map[string]string) {
 	cp := vSessEmptyTable()
 	for k, v := range t {
 		cp[k] = v
@@ -127,15 +152,56 @@ func (r *vSessRun) doSet(t map[string]string) {
 	r.lastReq = cp
 	r.l.add("set.call", map[string]interface{}{"S": cp, "req": vSessPairs(cp)})
 	advs := r.u.advs(cp)
-	r.callWithLimit(func() { _ = r.s.Set(advs...) })
-	r.l.add("set.ret", nil)
+	r.startCall("set.ret", func() { _ = r.s.Set(advs...) })
+}
+
+func (r *vSessRun) startClose() {
+	r.closed = true
+	r.l.add("close.call", nil)
+	r.startCall("close.ret", func() { _ = r.s.Close() })
+}
+
+func (r *vSessRun) doSet(t map[string]string) {
+	r.startSet(t)
+	r.waitCalls(2 * time.Second)
 }
 
 func (r *vSessRun) doClose() {
-	r.l.add("close.call", nil)
-	r.callWithLimit(func() { _ = r.s.Close() })
-	r.closed = true
-	r.l.add("close.ret", nil)
+	r.startClose()
+	r.waitCalls(2 * time.Second)
+}
+
+// waitCallsSoft waits for the calls in progress without abandoning anything.
+func (r *vSessRun) waitCallsSoft(limit time.Duration) {
+	deadline := time.After(limit)
+	left := r.pending[:0]
+	for _, done := range r.pending {
+		select {
+		case <-done:
+		case <-deadline:
+			left = append(left, done)
+		}
+	}
+	r.pending = left
+}
+
+// unblock: a step that needs s.mu free cannot be replayed while the peer holds a handshake back
+// or a call is pending (the schedule has drifted from the model): let both finish first.
+func (r *vSessRun) unblock() {
+	if r.holding() {
+		r.p.release()
+		r.c.waitFor(700*time.Millisecond, func() bool { return r.l.holdC == 0 }, nil)
+		r.c.stabilize()
+	}
+	if len(r.pending) > 0 {
+		r.waitCallsSoft(700 * time.Millisecond)
+	}
+}
+
+func (r *vSessRun) holding() bool {
+	r.l.mu.Lock()
+	defer r.l.mu.Unlock()
+	return r.l.holdC != 0
 }
 
 // trySettle waits until the session is idle on a live connection and logs a settled
@@ -231,6 +297,38 @@ func vSessRandTable(rng *rand.Rand, cur map[string]string) map[string]string {
 	return t
 }
 
+// slowHandshake: the peer reads the session's OPEN on the next connection and keeps its own
+// back; Set and/or Close are issued while the handshake is pending (with the code as it is they
+// block on s.mu until connect() returns); then the peer answers - possibly with a wrong ASN -
+// and the calls are awaited.
+func (r *vSessRun) slowHandshake(rng *rand.Rand, armed bool) {
+	if !armed {
+		r.p.armHold()
+		r.p.drop(0, rng.Intn(2) == 0) // if there is no live connection the next attempt is held anyway
+	}
+	if !r.c.waitFor(3*time.Second, func() bool { return r.l.holdC != 0 }, nil) {
+		r.p.release()
+		return
+	}
+	x := rng.Intn(100)
+	if x < 55 {
+		r.startSet(vSessRandTable(rng, r.lastReq))
+	}
+	if x >= 30 {
+		if len(r.pending) > 0 && rng.Intn(2) == 0 {
+			time.Sleep(time.Duration(rng.Intn(1500)) * time.Microsecond)
+		}
+		r.startClose()
+	}
+	if rng.Intn(4) == 0 {
+		r.p.setWrong(1)
+	}
+	time.Sleep(time.Duration(rng.Intn(3000)) * time.Microsecond)
+	r.p.release()
+	r.waitCalls(15 * time.Second)
+	r.p.setWrong(0)
+}
+
 func vSessStressRun(id string, seed int64) *vSessLog {
 	rng := rand.New(rand.NewSource(seed))
 	ibgp := rng.Intn(2) == 0
@@ -243,8 +341,12 @@ func vSessStressRun(id string, seed int64) *vSessLog {
 	if rng.Intn(100) < 6 {
 		wrongFirst, wrongUsed = 1+rng.Intn(2), true
 	}
-	r := vSessStart(id, "stress", ibgp, hold, false, seed, wrongFirst)
+	holdFirst := rng.Intn(100) < 8
+	r := vSessStartHold(id, "stress", ibgp, hold, false, seed, wrongFirst, holdFirst)
 	defer r.finish()
+	if holdFirst {
+		r.slowHandshake(rng, true)
+	}
 	nops := 5 + rng.Intn(22)
 	limit := 8 * time.Second
 	for i := 0; i < nops && !r.closed && r.status == "ok"; i++ {
@@ -278,10 +380,12 @@ func vSessStressRun(id string, seed int64) *vSessLog {
 				r.c.waitFor(6*time.Second, func() bool { return r.p.refusedCount() >= before+n }, nil)
 				r.p.setWrong(0)
 			}
-		case x < 90:
+		case x < 88:
 			if !r.trySettle(limit) {
 				r.status = "timeout:settle"
 			}
+		case x < 93:
+			r.slowHandshake(rng, false)
 		default:
 			time.Sleep(time.Duration(rng.Intn(3000)) * time.Microsecond)
 		}
@@ -289,7 +393,11 @@ func vSessStressRun(id string, seed int64) *vSessLog {
 	if r.status != "ok" {
 		return r.l
 	}
-	if !r.closed && rng.Intn(100) < 15 {
+	if r.closed {
+		r.afterClose()
+		return r.l
+	}
+	if rng.Intn(100) < 15 {
 		// Close in the middle of whatever is going on, possibly followed by more Sets
 		r.doClose()
 		for n := rng.Intn(3); n > 0; n-- {
@@ -336,7 +444,33 @@ func vSessGatedRun(sc vSessSchedule) *vSessLog {
 			break
 		}
 		switch st.A {
+		case "ConnectBegin":
+			r.l.mu.Lock()
+			at := c.sstate == vSessAtGate && c.spoint == "gate.connect"
+			r.l.mu.Unlock()
+			if at {
+				r.p.armHold()
+				c.releaseSender()
+				// the sender is now inside connect(): wait until the peer holds its OPEN (or the sender left)
+				c.waitFor(700*time.Millisecond, func() bool { return r.l.holdC != 0 || c.sstate != vSessRunning }, nil)
+			}
+		case "CallSet":
+			t := vSessEmptyTable()
+			for k, v := range st.S {
+				t[k] = v
+			}
+			r.startSet(t)
+		case "CallClose":
+			if !r.closed {
+				r.startClose()
+			}
+		case "RunCall":
+			if len(r.pending) > 0 {
+				r.waitCallsSoft(700 * time.Millisecond)
+				c.stabilize()
+			}
 		case "Set":
+			r.unblock()
 			c.ensureLockFree()
 			t := vSessEmptyTable()
 			for k, v := range st.S {
@@ -346,6 +480,7 @@ func vSessGatedRun(sc vSessSchedule) *vSessLog {
 			c.stabilize()
 		case "Close":
 			if !r.closed {
+				r.unblock()
 				c.ensureLockFree()
 				r.doClose()
 				c.stabilize()
@@ -354,16 +489,21 @@ func vSessGatedRun(sc vSessSchedule) *vSessLog {
 			r.l.mu.Lock()
 			at := c.sstate == vSessAtGate && c.spoint == "gate.connect"
 			r.l.mu.Unlock()
-			if at {
-				if st.A == "ConnectRefused" {
-					r.p.setWrong(1)
-				} else {
-					r.p.setWrong(0)
-				}
+			if st.A == "ConnectRefused" {
+				r.p.setWrong(1)
+			} else {
+				r.p.setWrong(0)
+			}
+			if r.holding() { // the peer answers the pending handshake
+				r.p.release()
+				c.waitFor(700*time.Millisecond, func() bool { return r.l.holdC == 0 }, nil)
+				c.stabilize()
+			} else if at {
 				c.releaseSender()
 				c.stabilize()
 			}
 		case "ReaderSeesEOF":
+			r.unblock()
 			c.ensureLockFree()
 			c.releaseReader(st.K, 250*time.Millisecond)
 			c.stabilize()
@@ -383,6 +523,8 @@ func vSessGatedRun(sc vSessSchedule) *vSessLog {
 	// the schedule is over: open the gates, let the session converge, observe, close, observe
 	c.ungate()
 	r.p.setWrong(0)
+	r.p.release()
+	r.waitCalls(10 * time.Second)
 	if r.status != "ok" {
 		return r.l
 	}
